@@ -149,6 +149,7 @@ class Env:
         self.oids = set(o for o, _ in self.base)
         self.dead = False
         self.last_user_tid = None  # newest committed transaction that is not a lock probe (undo target)
+        self.user_tids = []        # all of them, oldest first
 
     def model_reset(self):
         q = 'none' if self.quota is None else str(self.quota)
@@ -509,6 +510,7 @@ class Runner:
         self.last_commit = (tid, stored)
         if label != 'next':
             env.last_user_tid = tid
+            env.user_tids.append(tid)
         return True
 
     def cleanup_blob_tmp(self, env):
@@ -548,6 +550,11 @@ class Runner:
             # a two-phase commit that does not finish) — no model line: the model sees begin/vote/abort
             from base64 import encodebytes
             target = env.last_user_tid
+            if len(op) > 1 and op[1] == 'prev':
+                # the user transaction BEFORE the newest: typically only partly undoable (some of its
+                # objects were rewritten since) — FileStorage stages the undoable records first and then
+                # raises MultipleUndoErrors
+                target = env.user_tids[-2] if len(env.user_tids) >= 2 else None
             if target is None:
                 return dict(out='ok', evs=[], fired=[])
             tidb = encodebytes(p64(target)).rstrip()
@@ -697,6 +704,22 @@ class Runner:
             self.violation('C05:next-txn-damaged-others:%s:%s' % (env.kind, scen_label),
                            'the transaction following the aborted one stored oid %d only, but afterwards '
                            'load(%d) answers %r instead of %r' % (NEXT_OID, bad[0], loads1.get(bad[0]), loads0[bad[0]]))
+            return False
+        # ... and on disk it consists of exactly its own record (nothing staged by the aborted transaction
+        # was carried into it)
+        try:
+            recs = 'transaction not found'
+            for txn in env.st.iterator(p64(tid)):
+                if u64(txn.tid) == tid:     # (records must be read while the iterator's file is open)
+                    recs = [(u64(r.oid), u64(r.tid), None if r.data is None else (len(r.data), tag_of(r.data)))
+                            for r in txn]
+        except Exception as e:
+            recs = 'iterator raised %s' % type(e).__name__
+        wantrecs = [(NEXT_OID, tid, (stored[NEXT_OID][0], stored[NEXT_OID][1]))]
+        if recs != wantrecs:
+            self.violation('C05:next-txn-carries-aborted-records:%s:%s' % (env.kind, scen_label),
+                           'the transaction following the aborted one stored one record (oid %d); the storage\'s '
+                           'iterator shows it as %r' % (NEXT_OID, recs))
             return False
         self.obs_point(env, 'after-next')
         return True
@@ -1214,6 +1237,18 @@ def gen_txn(rng, kind, oids, big=False):
                 e=rng.choice([0, 0, 0, 20]), ops=ops)
 
 
+def partial_undo_steps(rng):
+    """T(A, B); T'(B again); victim: undo T — A's undo record is staged, B cannot be undone, the call
+    raises MultipleUndoErrors; abort (before or after more stores); the next commit must be clean"""
+    a, b = 11, 12
+    sz = rng.choice([5, 300, 9000])
+    steps = [dict(type='commit', txn=dict(u=0, d=3, e=0, ops=[['store', a, 'cur', sz, 21], ['store', b, 'cur', 7, 22]])),
+             dict(type='commit', txn=dict(u=0, d=0, e=0, ops=[['store', b, 'cur', 9, 23]]))]
+    for ops in ([['undo', 'prev']], [['store', 13, 'cur', 4, 24], ['undo', 'prev']]):
+        steps.append(dict(type='scenario', victim=dict(u=0, d=5, e=0, ops=ops), failure=dict(kind='abort', at=len(ops))))
+    return steps
+
+
 def gen_case(rng, kind, thorough):
     oids = [1, 2, 3, 5, 8, 2 ** 16 + 1]
     ncommit = rng.choice([2, 3, 4, 6])
@@ -1243,6 +1278,8 @@ def gen_case(rng, kind, thorough):
                 txn['ops'] = [['storeblob', rng.choice([1, 2]), 'cur', rng.choice([5, 300]), rng.choice(safe_tags())]] \
                     + [o for o in txn['ops'] if o[0] == 'store' and o[1] not in (1, 2)][:1]
             steps.append(dict(type='commit', txn=txn))
+    if kind in ('file', 'fileblob', 'blobfile') and rng.random() < 0.6:
+        steps[0:0] = partial_undo_steps(rng)
     quota = None
     if kind in ('file', 'fileblob', 'demofile') and rng.random() < 0.5:
         quota = rng.choice([600000, 1000000, 2000000])
